@@ -186,8 +186,12 @@ def style_text(rng):
 class Faulty:
     """file object that raises IOError at the n-th operation"""
 
-    def __init__(self, f, fail_at):
+    def __init__(self, f, fail_at, sticky=False, exc=None):
+        """sticky: every operation from the fail_at-th on fails (the device is gone) instead of that one operation only (a transient
+        error: the same operation would succeed when tried again); exc: name of the exception class raised (FAULT_EXCEPTIONS)"""
         self.f, self.fail_at, self.n = f, fail_at, 0
+        self.sticky, self.exc = sticky, exc
+        self.fired = 0                      # how many operations failed
         self.ops = []
         self.first_write_done = False
         self.truncate_done = False          # the closing truncate has RETURNED: the write phase is over, the file is completely rewritten
@@ -200,7 +204,10 @@ class Faulty:
     def _op(self, name):
         self.n += 1
         self.ops.append(name)
-        if self.n == self.fail_at:
+        if self.n == self.fail_at or (self.sticky and self.n > self.fail_at):
+            self.fired += 1
+            if self.exc:
+                raise fault_exception(self.exc, "injected fault at op %d (%s)" % (self.n, name))
             raise IOError("injected fault at op %d (%s)" % (self.n, name))
 
     def read(self, *a):
@@ -242,6 +249,64 @@ class Faulty:
     @property
     def closed(self):
         return self.f.closed
+
+
+# what a file object may raise when the medium fails: all of them are OSError (= IOError = EnvironmentError on Python 3), which is
+# also what the library itself (and zipfile) raise for conditions that are NOT I/O failures, such as a missing member
+FAULT_EXCEPTIONS = ["OSError-EIO", "IOError", "OSError-ENOSPC", "PermissionError", "FileNotFoundError", "TimeoutError", "InterruptedError", "BlockingIOError",
+                    "OSError-noerrno", "OSError-ENOENT", "ConnectionResetError", "OSError-ESTALE"]
+
+
+def fault_exception(name, text):
+    import errno
+    if name.startswith("OSError-"):
+        code = name[8:]
+        return OSError(text) if code == "noerrno" else OSError(getattr(errno, code), text)
+    cls = {"IOError": IOError, "PermissionError": PermissionError, "FileNotFoundError": FileNotFoundError, "TimeoutError": TimeoutError,
+           "InterruptedError": InterruptedError, "BlockingIOError": BlockingIOError, "ConnectionResetError": ConnectionResetError}[name]
+    return cls(text) if cls is IOError else cls({"PermissionError": errno.EACCES, "FileNotFoundError": errno.ENOENT, "TimeoutError": errno.ETIMEDOUT,
+                                                   "InterruptedError": errno.EINTR, "BlockingIOError": errno.EAGAIN, "ConnectionResetError": errno.ECONNRESET}[name], text)
+
+
+def embed_under_fault(data0, s, k, sticky=False, exc=None):
+    """one embed_style_map on a file object whose k-th operation fails -> (the file object, the exception or None)"""
+    import mammoth
+    f = Faulty(io.BytesIO(data0), k, sticky=sticky, exc=exc)
+    try:
+        mammoth.embed_style_map(f, s)
+        return f, None
+    except Exception as e:  # noqa
+        return f, e
+
+
+def judge_fault(out, data0, s, k, total, f, err, had_map, model_ok, case):
+    """the two halves of the fault clause, for one injected fault.  The call RAISED: nothing has been written (a fault inside the final
+    copy is the known finding K1).  The call RETURNED NORMALLY (somebody on the way swallowed the error, or retried): then the caller
+    has been told that the map is embedded, and the file must be everything a successful embed promises - round trip, every
+    relationship and content-type entry kept, exactly one style-map entry, all other parts identical, valid archive, and converting
+    it equals converting the original with style_map=s.  -> payload of a failing input, or None"""
+    after = f.f.getvalue()
+    op = f.ops[k - 1] if k - 1 < len(f.ops) else "?"
+    if err is not None:
+        if after == data0:
+            return None
+        # K1 is about a fault INSIDE the final copy (first data write .. closing truncate); an exception that comes out of the
+        # public call after the rewrite is complete ("if embedding fails, nothing has been written") is not K1
+        payload = dict(property="C12", kind="failing-input", what="embedding failed at file operation %d of %d (%s%s) but the file was modified" % (
+            k, total, op, ", after the rewrite of the file had been completed" if f.truncate_done else ""), case=case, how_to_rerun="./check C12 --replay <this file>")
+        if f.in_final_copy():
+            payload["signature"] = {"kind": "embed-fault", "when": "after-first-write"}
+        return payload
+    probs = check_embed(out, data0, after, s, "f", model_ok, case)
+    if not probs:
+        a = D.run_real(after, {}, want_doc=False)
+        b = D.run_real(data0, {"styleMap": s, "includeEmbedded": False} if had_map else {"styleMap": s}, want_doc=False)
+        if (a.get("value"), a.get("messages"), a.get("err")) != (b.get("value"), b.get("messages"), b.get("err")):
+            probs.append("converting the embedded file differs from converting the original with style_map=s")
+    if not probs:
+        return None
+    return dict(property="C12", kind="failing-input", what="an I/O error at file operation %d of %d (%s, %s%s) did not make embed_style_map fail: the call returned normally, but %s" % (
+        k, total, op, f.exc or "IOError", ", and at every later operation" if f.sticky else ", once", "; ".join(probs[:3])), case=case, how_to_rerun="./check C12 --replay <this file>")
 
 
 def check_embed(out, before, after, s, tag, model_ok, case):
@@ -369,6 +434,7 @@ def run(out, tier, seed, model_ok):
         # faults: an I/O error at each file operation of one embed
         if i % (3 if tier == "quick" else 2) == 0:
             s = style_text(rng) if rng.random() < 0.75 else rng.choice(EDGE_MAPS)
+            frng = random.Random(seed * 1000003 + i + 77)       # how the fault shows (its own stream: the histories stay as they were)
             probe = Faulty(io.BytesIO(data0), 10 ** 9)
             case = {"kind": "embed-history", "docx_hex": data0.hex() if len(data0) < 30000 else None, "history": [s], "on_disk": False, "file_object": "wrapper", "seed": seed * 1000003 + i}
             try:
@@ -385,26 +451,23 @@ def run(out, tier, seed, model_ok):
                 continue
             total = probe.n
             for k in range(1, total + 1):
-                f = Faulty(io.BytesIO(data0), k)
-                try:
-                    mammoth.embed_style_map(f, s)
-                    failed = False
-                except IOError:
-                    failed = True
-                except Exception:
-                    failed = True
+                f, err = embed_under_fault(data0, s, k)
                 out.count(key="fault-%d-%d-%d" % (seed, i, k), nontrivial=True)
-                if failed and f.f.getvalue() != data0:
-                    case = {"kind": "embed-fault", "docx_hex": data0.hex() if len(data0) < 30000 else None, "style_map": s, "fail_at": k, "ops": f.ops, "seed": seed * 1000003 + i}
-                    # K1 is about a fault INSIDE the final copy (first data write .. closing truncate); an exception that comes out of the
-                    # public call after the rewrite is complete ("if embedding fails, nothing has been written") is not K1
-                    sig = {"kind": "embed-fault", "when": "after-first-write"} if f.in_final_copy() else None
-                    payload = dict(property="C12", kind="failing-input", what="embedding failed at file operation %d of %d (%s%s) but the file was modified" % (
-                        k, total, f.ops[-1], ", after the rewrite of the file had been completed" if f.truncate_done else ""), case=case,
-                                   how_to_rerun="./check C12 --replay <this file>")
-                    if sig:
-                        payload["signature"] = sig
-                    out.violations.append(("input", payload))
+                case = {"kind": "embed-fault", "docx_hex": data0.hex() if len(data0) < 30000 else None, "style_map": s, "fail_at": k, "ops": f.ops, "seed": seed * 1000003 + i}
+                bad = judge_fault(out, data0, s, k, total, f, err, had_map, False, case)
+                if bad:
+                    out.violations.append(("input", bad))
+                ft["fault_returned_normally"] = ft.get("fault_returned_normally", 0) + (1 if err is None else 0)
+                # the same operation failing in another way: another OSError (errno, subclass), and / or for good (every later
+                # operation fails as well - nothing may then be written at all, whatever was caught and retried on the way)
+                sticky, exc = frng.random() < 0.4, frng.choice(FAULT_EXCEPTIONS)
+                f, err = embed_under_fault(data0, s, k, sticky=sticky, exc=exc)
+                out.count(key="fault2-%d-%d-%d" % (seed, i, k), nontrivial=True)
+                case = dict(case, ops=f.ops, sticky=sticky, exc=exc)
+                bad = judge_fault(out, data0, s, k, total, f, err, had_map, False, case)
+                if bad:
+                    out.violations.append(("input", bad))
+                ft["fault_sticky"] = ft.get("fault_sticky", 0) + (1 if sticky else 0)
         # a string that cannot be encoded: the call fails before anything is written
         f = io.BytesIO(data0)
         try:
@@ -438,7 +501,9 @@ def run(out, tier, seed, model_ok):
                 "addOrUpdate/updateZip/utf8 model, conversion equals conversion with style_map=s; about a third of the start packages hold REPEATED member names (style map, "
                 "relationships, content types and other parts; appended variants or stale copies in front - readers use the last one); plus an I/O error injected at every "
                 "file operation of the public call, those after the completed rewrite included (exception => file unchanged; only a fault between the first data write and "
-                "the return of the closing truncate is the known finding K1), and an unencodable string; non-trivial = the archive shrank" % (6 if tier == "quick" else 20))
+                "the return of the closing truncate is the known finding K1), and an unencodable string; a call that RETURNS NORMALLY although an operation failed is held to the whole statement of a successful "
+                "embed (round trip, all entries kept, one style-map entry, other parts identical, conversion equal); every operation fails once (transient) and a second time "
+                "as another OSError (errno / subclass) or for good (all later operations fail too); non-trivial = the archive shrank" % (6 if tier == "quick" else 20))
     out.sample({"history_lengths": [len(x) for x in hist]})
 
 
@@ -464,7 +529,13 @@ def replay(out, payload, model_ok):
                 return
             cur = f.getvalue()
     elif case["kind"] == "embed-fault":
-        f = Faulty(io.BytesIO(data0), case["fail_at"])
+        f, err = embed_under_fault(data0, case["style_map"], case["fail_at"], sticky=case.get("sticky", False), exc=case.get("exc"))
+        if err is None:
+            bad = judge_fault(out, data0, case["style_map"], case["fail_at"], len(f.ops), f, None, STYLE in read_zip(data0)[0], model_ok, case)
+            if bad:
+                out.violations.append(("input", bad))
+            return
+        f = Faulty(io.BytesIO(data0), case["fail_at"], sticky=case.get("sticky", False), exc=case.get("exc"))
         try:
             mammoth.embed_style_map(f, case["style_map"])
         except Exception:
